@@ -187,10 +187,9 @@ Fixpoint p_dtype (tol : tolerance) (pad_ok : bool) (fuel : nat) (bs : bytes) : o
       (* bits: 0-15 number of members.  member: name (NUL-terminated; v1, v2: padded to a multiple of 8), byte offset (v1, v2: 4
          bytes; v3: as many bytes as the datatype size needs), [v1: dimensionality (1), reserved (3), dimension permutation (4),
          reserved (4), four dimension sizes (4 each)], member datatype *)
-      _ <- guard ((bits <? 65536) && (0 <? bits));;
-      let ow := if ver =? 3 then bytes_needed size else 4%nat in
-      '(ms, tg, r2) <-
-        (fix members (k : nat) (r : bytes) : outcome (list (bytes * N * dtype) * list tag * bytes) :=
+      _ <- guard (bits <? 65536);;
+      let members :=
+        (fix members (ow : nat) (k : nat) (r : bytes) : outcome (list (bytes * N * dtype) * list tag * bytes) :=
            match k with
            | O => Ok ([], [], r)
            | S k' =>
@@ -205,9 +204,21 @@ Fixpoint p_dtype (tol : tolerance) (pad_ok : bool) (fuel : nat) (bs : bytes) : o
                            else Ok (tt, r));;
                '(t, tg1, r) <- p_dtype tol pad_ok fuel' r;;
                _ <- guard (off + dtype_size t <=? size);;
-               '(rest, tg2, r) <- members k' r;;
+               '(rest, tg2, r) <- members ow k' r;;
                Ok ((nm, off, t) :: rest, tg1 ++ tg2, r)
-           end) (N.to_nat bits) r;;
+           end) in
+      '(ms, tg, r2) <-
+        (if (ver =? 3) && (bits =? 0) then
+           (* deviation (proposed listing): class bits 0, the number of members as a 4-byte field in front of the member list,
+              and 4-byte member offsets whatever the datatype size *)
+           tg0 <- dev tol T_compound_v3_layout;;
+           '(n, r) <- p_u 4 r;;
+           _ <- guard ((0 <? n) && (n <? 65536));;
+           '(ms, tg, r2) <- members 4%nat (N.to_nat n) r;;
+           Ok (ms, tg0 ++ tg, r2)
+         else
+           _ <- guard (0 <? bits);;
+           members (if ver =? 3 then bytes_needed size else 4%nat) (N.to_nat bits) r);;
       Ok (DCompound ver size ms, tg, r2)
     else if cls =? 7 then
       (* bits: 0-3 type (0 object reference, 1 dataset region reference); no properties *)
@@ -218,9 +229,29 @@ Fixpoint p_dtype (tol : tolerance) (pad_ok : bool) (fuel : nat) (bs : bytes) : o
       _ <- guard (bits <? 65536);;
       '(base, tg, r2) <- p_dtype tol pad_ok fuel' r;;
       _ <- guard (dtype_size base =? size);;
-      '(names, r2) <- p_enum_names ver (N.to_nat bits) r2;;
-      '(vals, r2) <- p_chunks (N.to_nat size) (N.to_nat bits) r2;;
-      Ok (DEnum ver size base (combine names vals), tg, r2)
+      match ('(names, r3) <- p_enum_names ver (N.to_nat bits) r2;;
+             '(vals, r3) <- p_chunks (N.to_nat size) (N.to_nat bits) r3;;
+             Ok (names, vals, r3)) with
+      | Ok (names, vals, r3) => Ok (DEnum ver size base (combine names vals), tg, r3)
+      | _ =>
+          (* deviation (proposed listing): version 3 members stored as (name, padded to a multiple of 8 bytes; value) pairs instead of
+             all names (unpadded) followed by all values *)
+          _ <- guard (ver =? 3);;
+          '(ms, r3) <-
+            (fix go (k : nat) (r : bytes) : outcome (list (bytes * bytes) * bytes) :=
+               match k with
+               | O => Ok ([], r)
+               | S k' =>
+                   '(nm, r) <- p_cstr r;;
+                   _ <- guard (negb (length nm =? 0)%nat);;
+                   '(_, r) <- p_zeros (N.to_nat (up8 (blen nm + 1) - (blen nm + 1))) r;;
+                   '(v, r) <- p_take (N.to_nat size) r;;
+                   '(rest, r) <- go k' r;;
+                   Ok ((nm, v) :: rest, r)
+               end) (N.to_nat bits) r2;;
+          tg0 <- dev tol T_enum_v3_layout;;
+          Ok (DEnum ver size base ms, tg ++ tg0, r3)
+      end
     else if cls =? 9 then
       (* bits: 0-3 type (0 sequence, 1 string), 4-7 padding type, 8-11 character set; properties: base type *)
       let vt := bits_of bits 0 4 in let pad := bits_of bits 4 4 in let cset := bits_of bits 8 4 in
